@@ -57,7 +57,9 @@ namespace c08
         BEFORE = 1 // operand starts right after an inaccessible page: one byte of under-read/-write faults
     };
     static const size_t PG = 4096;
-    static const int W = 320; // bytes next to the guard that are reset before and compared after every call
+    static const size_t NPAGES = 40; // read/write pages per arena (the "large" sub-checks place up to ~71000 bytes)
+    extern int W;                    // bytes next to each guard that are reset before and compared after every call
+    static const int W_SMALL = 320;
 
     struct Arena
     {
@@ -65,16 +67,17 @@ namespace c08
         uint8_t fill = 0;
         void init(uint8_t f)
         {
-            uint8_t *m = (uint8_t *)mmap(nullptr, 3 * PG, PROT_READ | PROT_WRITE, MAP_PRIVATE | MAP_ANONYMOUS, -1, 0);
+            uint8_t *m = (uint8_t *)mmap(nullptr, (NPAGES + 2) * PG, PROT_READ | PROT_WRITE, MAP_PRIVATE | MAP_ANONYMOUS, -1, 0);
             if (m == MAP_FAILED)
                 mc::harness_error("mmap failed");
             fill = f;
-            memset(m, f, 3 * PG);
+            memset(m, f, (NPAGES + 2) * PG);
             mprotect(m, PG, PROT_NONE);
-            mprotect(m + 2 * PG, PG, PROT_NONE);
+            mprotect(m + (NPAGES + 1) * PG, PG, PROT_NONE);
             lo = m + PG;
-            hi = m + 2 * PG;
+            hi = m + (NPAGES + 1) * PG;
         }
+        void wipe() { memset(lo, fill, hi - lo); }
         uint8_t *win(int pl) { return pl == AFTER ? hi - W : lo; }
         // both windows are reset, so that a wild scan through the page sees the same bytes in every run
         void reset(int)
@@ -87,8 +90,10 @@ namespace c08
         {
             reset(pl);
             uint8_t *p = pl == AFTER ? hi - mis - n : lo + mis;
-            if (n)
+            if (n && d)
                 memcpy(p, d, n);
+            else if (n)
+                memset(p, 0xEE, n); // d == nullptr: a destination array, pre-filled with junk
             return p;
         }
     };
@@ -96,6 +101,8 @@ namespace c08
     // operand slots 0..2 for the implementation (I) and for the reference (R); same fill per slot
     extern Arena I[3], R[3], M; // M: igc_malloc's arena
     void init_arenas();
+    void set_window(size_t maxbytes); // large sub-checks: window = maxbytes + 640
+    void restore_window();            // back to W_SMALL, arenas wiped to their fill byte
 
     // ---- current call (for messages and signatures) ----
     struct Call
@@ -117,6 +124,11 @@ namespace c08
     extern int PL;
     extern void (*lazy_extra)(); // fills K.extra when a message is actually needed
     extern unsigned long nbad;   // number of bad()/fault() reports so far
+    extern unsigned long ncalls; // calls of the functions under test so far
+    // lengths and positions used by the "large" sub-checks (counters/sizes narrowed to 8 or 16 bits show only there)
+    std::vector<size_t> large_lengths();
+    std::vector<size_t> large_positions(size_t L); // {0,1,254,255,256,257,L-1} below L
+    std::vector<size_t> large_ns(size_t L);        // n arguments: 0,1,254..257,L-1,L,L+1
 
     inline void setK(const char *fn, const uint8_t *a, long alen, const uint8_t *b = nullptr, long blen = -1)
     {
@@ -181,6 +193,7 @@ namespace c08
 #define CALL(expr)                        \
     do                                    \
     {                                     \
+        c08::ncalls++;                    \
         if (!mc::guarded([&] { expr; }))  \
         {                                 \
             c08::fault();                 \
